@@ -110,7 +110,8 @@ EvBackoff ==
           THEN /\ Q' = [Q EXCEPT !.failed[i] = @ \cup Q.temp[i], !.temp[i] = {},
                                  !.exp[i] = @ \cup (IF Q.sender[i] = 1 /\ Q.temp[i] # {} THEN Groups(i, Q.temp[i], Q.ridof[i]) ELSE {})]
                /\ bad' = bad
-          ELSE Q' = Q /\ bad' = bad
+          ELSE \* the time the backoff policy chose counts from the moment it was consulted
+               Q' = [Q EXCEPT !.due[i] = E.now + E.wait, !.flushed = @ \ {i}] /\ bad' = bad
 
 (* ------------------------------------------------------------------ bounces *)
 EvBounceMade ==
@@ -166,6 +167,9 @@ EvFinal ==
        \cup Flag("C12_EnqueueReturns", E.hung_enq = 0)
        \cup (IF E.drained
              THEN Flag("C01_EventuallySettled", \A i \in Q.acc : Outstanding(i) = {})
+                  \* failed for good with a non-empty sender => named in a bounce that was handed to enqueue
+                  \cup Flag("C01_FailedAreBounced", \A i \in Q.acc : Q.sender[i] = 1 =>
+                            \A p \in Q.failed[i] : \E g \in (IF T.cfg.factory_none THEN Q.made[i] ELSE Q.enq[i]) : p \in g[2])
                   \cup Flag("C01_NothingLeftBehind", Q.stored = {})
                   \cup Flag("C13_OnePerGroup", \A i \in Ids : IF T.cfg.factory_none THEN Q.made[i] = Q.exp[i] /\ Q.enq[i] = {}
                                                                  ELSE Q.made[i] = Q.exp[i] /\ Q.enq[i] = Q.exp[i])
